@@ -35,6 +35,11 @@ theorem exec_append (env : Env) (c d : List Step) (vs : List V) :
     | error e => rfl
     | ok st => exact ih st
 
+/-- The final test leaves finite values alone and maps NaN to `None`: on the values of the exact model the
+emitted value is the stack value. -/
+theorem emitValue_id (v : V) : emitValue v = v := by
+  cases v <;> simp [emitValue, ofV, resultIsNone, PyF.isnanC, PyF.isinfC, PyF.isfiniteC]
+
 /-! ## What the proof needs from `Adder`, `Subtractor`, `Multiplier`, `Divider` -/
 
 theorem binVal_add (a b : V) : binVal .add a b = .ok (PyF.add a b) := by
